@@ -70,22 +70,28 @@ def run(ctx: Ctx):
             one = [m_ for m_, c in pA.items() if len(m_) == 1 and m_[0][1] == 1 and c == 1 and m_[0][0].isidentifier()]
             two = [m_ for m_, c in pA.items() if len(m_) == 2 and c == -1 and dict(m_).get("discount_rate") == 1]
             if one and two:
-                other = [k for k, e_ in two[0] if k != "discount_rate" and e_ == 1 and k.isidentifier()]
+                other = [k for k, e_ in two[0] if k != "discount_rate" and e_ == 1]
                 if other:
                     ea = {"eye": one[0][0][0], "mp": other[0]}
         ctx.check(ea is not None, "EVAL-1", f, sv, "system matrix = eye - gamma * P_pi", alg.show(pA), f"system matrix normalises to `{alg.show(pA)}`")
         if ea is not None:
-            env.update(ea)
+            env.update({"eye": ea["eye"]})
             eyed = [n for n, _ in pat.find(f.node, "V_eye = torch.eye(ANY)", env)]
             ctx.check(bool(eyed), "EVAL-1", f, sv, "the identity term is torch.eye(n_states)", "", "the first term of the system matrix is not the identity")
-            mpd = defs.get(ea["mp"])
+            # the chain: a named temporary or the expression in place
+            if ea["mp"].isidentifier():
+                mpd = defs.get(ea["mp"])
+                mpv = mpd.value if mpd is not None else None
+            else:
+                mpv = next((x for x in ast.walk(A) if isinstance(x, ast.expr) and alg.text(x) == ea["mp"]), None)
+                mpd = sv
             em = None
-            if mpd is not None:
-                for pt in ("V_mp = (V_pi[:, :, None] * V_tf[:, :, :]).sum(dim=1)", "V_mp = (V_pi[:, :, None] * V_tf).sum(dim=1)", "V_mp = torch.einsum('sa,san->sn', V_pi, V_tf)"):
-                    em = em or pat.m(pt, mpd, env)
+            if mpv is not None:
+                for pt in ("(V_pi[:, :, None] * V_tf[:, :, :]).sum(dim=1)", "(V_pi[:, :, None] * V_tf).sum(dim=1)", "torch.einsum('sa,san->sn', V_pi, V_tf)"):
+                    em = em or pat.m(pt, mpv, env, fn=f.node)
             ok = em is not None and is_T(em["tf"])
             ctx.check(ok, "EVAL-1", f, mpd if mpd is not None else sv, "P_pi = sum over actions of pi(a|s) T(s'|s,a)", "",
-                      f"policy chain is `{norm(mpd.value) if mpd is not None else None}`: it must weight T by the current policy and sum the *action* axis")
+                      f"policy chain is `{norm(mpv) if mpv is not None else None}`: it must weight T by the current policy and sum the *action* axis")
             if em:
                 env.update(em)
         # right-hand side
